@@ -20,6 +20,8 @@ pub enum Split {
     /// a single subsection from the smallest to the largest number; gaps are filled with free entries (gen 65535)
     /// (only usable when filling is harmless, i.e. in the first section)
     OneFilled,
+    /// one subsection per entry, in descending order of object numbers (subsections need not be sorted)
+    PerEntryDescending,
 }
 
 #[derive(Clone, Debug)]
@@ -206,6 +208,11 @@ impl<'a> FileBuilder<'a> {
         match split {
             Split::PerEntry => {
                 for (&n, &e) in entries {
+                    subs.push((n, vec![e]));
+                }
+            }
+            Split::PerEntryDescending => {
+                for (&n, &e) in entries.iter().rev() {
                     subs.push((n, vec![e]));
                 }
             }
